@@ -22,7 +22,7 @@ From Coupe Require Properties.C03 Properties.C09 Properties.C10 Properties.C11 P
 
 (* ------------------------------------------------------------------ Rcb / Rib *)
 Module RcbC.
-  Import Coupe.Model.Rcb Coupe.Proofs.RcbInst.   (* RcbInst: only [coords_ok], [to32] (vocabulary of C03's statements) *)
+  Import Coupe.Model.Rcb Coupe.Proofs.RcbInst.   (* RcbInst, RcbBox: only [coords_ok], [to32], [coords_in_f32_range] (vocabulary of C03's statements) *)
   Open Scope Z_scope.
 
   (* whenever the model returns Ok: one id per point, every id below 2^iter_count *)
@@ -31,21 +31,29 @@ Module RcbC.
     length p = length pts /\ (pts <> [] -> Forall (fun i => (i < 2 ^ N.of_nat k)%N) p).
   Proof. exact C03.C03_one_part_per_point. Qed.
 
+  (* a finite binary32 image is not NaN (SpecFloat only) *)
+  Lemma in_range_coords_ok pts : RcbBox.coords_in_f32_range pts -> coords_ok pts.
+  Proof.
+    unfold RcbBox.coords_in_f32_range, coords_ok, to32. intros H.
+    rewrite Forall_forall in *. intros pt Hpt. apply in_map_iff in Hpt as (pt0 & <- & Hpt0).
+    specialize (H pt0 Hpt0). rewrite Forall_forall in *. intros c Hc. apply in_map_iff in Hc as (c0 & <- & Hc0).
+    destruct (H c0 Hc0) as (_ & _ & F). unfold f32_valid. destruct (f64_to_f32 c0); try discriminate; reflexivity.
+  Qed.
+
   (* Ok for every schedule, with the range: C03_rcb_total + C03_one_part_per_point *)
   Lemma rcb_collect : forall fuel sched D k tol pts ws p0,
     (0 < D)%nat -> length ws = length p0 -> length pts = length p0 ->
-    Forall (fun pt => length pt = D) pts ->
-    Coupe.Proofs.RcbBox.coords_in_f32_range pts ->
+    Forall (fun pt => length pt = D) pts -> RcbBox.coords_in_f32_range pts ->
     Z.of_nat fuel > 2 ^ 33 ->
     exists p, C03.rcb_impl fuel sched D k tol pts ws p0 = Ok p
               /\ length p = length pts /\ Forall (fun i => (i < 2 ^ N.of_nat k)%N) p.
   Proof.
-    intros fuel sched D k tol pts ws p0 HD Hlw Hlp Hshape Hr Hf.
-    pose proof (Coupe.Proofs.RcbTotalInst.range_coords_ok pts Hr) as Hok.
-    destruct (C03.C03_rcb_total fuel sched D k tol pts ws p0 HD Hlw Hlp Hshape Hr Hf) as [p Hp].
+    intros fuel sched D k tol pts ws p0 HD Hlw Hlp Hshape Hin Hf.
+    pose proof (in_range_coords_ok pts Hin) as Hok.
+    destruct (C03.C03_rcb_total fuel sched D k tol pts ws p0 HD Hlw Hlp Hshape Hin Hf) as [p Hp].
     exists p. split; [exact Hp|].
-    destruct (C03.C03_one_part_per_point fuel sched D k tol pts ws p0 p Hok Hp) as [Hl Hrg]. split; [exact Hl|].
-    destruct pts as [|pt0 pts']; [|apply Hrg; discriminate].
+    destruct (C03.C03_one_part_per_point fuel sched D k tol pts ws p0 p Hok Hp) as [Hl Hr]. split; [exact Hl|].
+    destruct pts as [|pt0 pts']; [|apply Hr; discriminate].
     destruct p; [constructor|discriminate].
   Qed.
 End RcbC.
@@ -170,7 +178,8 @@ End SfcC.
 (* ------------------------------------------------------------ MultiJagged *)
 Module MjC.
   Import Coq.QArith.QArith.
-  Import Coupe.Model.MultiJagged Coupe.Proofs.MultiJaggedProofs.  (* MultiJaggedProofs: root_ok, sorter_ok, ord_ok only *)
+  Import Coupe.Model.MultiJagged Coupe.Proofs.MultiJaggedProofs Coupe.Proofs.MultiJaggedTotal.
+  (* MultiJaggedProofs / MultiJaggedTotal: root_ok, sorter_ok, ord_ok, notneg, mono_cuts only *)
   Open Scope N_scope.
 
   (* every arithmetic (binary64 included): IF the model returns, every element
@@ -199,6 +208,39 @@ Module MjC.
     destruct (C11.C11_exact_total D npts wq sorter blk cxlt root ord k m p0 Hr Hs Hk1 Hk2 Hm HD Hw Hlw Hl) as [p E].
     exists p. split; [exact E|].
     exact (mj_range QA D npts wq sorter blk cxlt root ord k m p0 p Hr Hs Ho Hk1 Hk2 Hm Hl E).
+  Qed.
+
+  (* every arithmetic, inside the contract: the model returns Ok or stops at panic
+     site 4 or 5; never an error value, never out of fuel *)
+  Lemma mj_panic_sites : forall (A : arith) D npts (wts : list (num A)) sorter blk cxlt root ord (k : N) (m : nat) p0,
+    root_ok root -> sorter_ok sorter cxlt -> 1 <= k -> k < 2 ^ 60 -> (1 <= m)%nat -> (1 <= D)%nat ->
+    length wts = npts -> length p0 = npts ->
+    (forall e, multi_jagged A D npts wts sorter blk root ord k m p0 <> Err e)
+    /\ multi_jagged A D npts wts sorter blk root ord k m p0 <> OutOfFuel
+    /\ (forall s, multi_jagged A D npts wts sorter blk root ord k m p0 = Panic s -> s = 4 \/ s = 5).
+  Proof.
+    intros A D npts wts sorter blk cxlt root ord k m p0 Hr Hs Hk1 Hk2 Hm HD Hlw Hl.
+    pose proof (C11.C11_panic_sites_any_arithmetic A D npts wts sorter blk cxlt root ord k m p0 Hr Hs Hk1 Hk2 Hm HD Hlw Hl) as O.
+    split; [|split].
+    - intros e E. rewrite E in O. exact O.
+    - intros E. rewrite E in O. exact O.
+    - exact (C11.C11_panic_sites_4_5_only A D npts wts sorter blk cxlt root ord k m p0 Hr Hs Hk1 Hk2 Hm HD Hlw Hl).
+  Qed.
+
+  (* binary64, either Ulps epsilon: Ok with the range, given non-decreasing cuts *)
+  Lemma mj_collect_f64 : forall eps D npts wts sorter blk cxlt root ord (k : N) (m : nat) p0,
+    root_ok root -> sorter_ok sorter cxlt -> ord_ok ord (N.to_nat k) ->
+    1 <= k -> k < 2 ^ 60 -> (1 <= m)%nat -> (1 <= D)%nat ->
+    length wts = npts -> length p0 = npts -> Forall notneg wts ->
+    mono_cuts (F64eps eps) npts wts blk ->
+    exists p, multi_jagged (F64eps eps) D npts wts sorter blk root ord k m p0 = Ok p
+              /\ length p = npts /\ Forall (fun x => x < k) p.
+  Proof.
+    intros eps D npts wts sorter blk cxlt root ord k m p0 Hr Hs Ho Hk1 Hk2 Hm HD Hlw Hl Hnn Hmono.
+    destruct (C11.C11_f64_total_of_monotone_cuts_partial eps D npts wts sorter blk cxlt root ord k m p0
+                Hr Hs Hk1 Hk2 Hm HD Hlw Hl Hnn Hmono) as [p E].
+    exists p. split; [exact E|].
+    exact (mj_range (F64eps eps) D npts wts sorter blk cxlt root ord k m p0 p Hr Hs Ho Hk1 Hk2 Hm Hl E).
   Qed.
 End MjC.
 
